@@ -12,10 +12,10 @@ import (
 func init() {
 	prop(&PropertySpec{
 		ID: "C03", Level: "other",
-		Rules: []string{"R03.1", "R03.2", "R03.3", "R03.4", "R03.5", "R03.6", "R03.7", "R07.6"},
+		Rules: []string{"R03.1", "R03.2", "R03.3", "R03.4", "R03.5", "R03.6", "R03.7", "R07.6", "R17.1"},
 		Explanation: "Decides the structural premises of exactly-once in-order delivery: R03.1 the subscribers map and every Replayer.Put/Replay invocation are confined to the single loop goroutine (only one go statement, started under sync.Once; no access from any function reachable from an exported entry point without crossing that go statement); " +
 			"R03.2 operation channels are unbuffered, reply channels buffered; R03.3 the fan-out Send is nested in exactly the main loop and the range over subscribers, is called on the current range value's Client, under topicsIntersect(sub.Topics, msg.topics) of the message received in this iteration, at one call site; " +
-			"R03.4 every successful Send is followed by Flush on the same client before the next subscriber; R03.5 every accepted message reaches the fan-out before the next select; R03.6 Publish's hand-off/return sources; R03.7 topicsIntersect is true only under an equality of an element of each argument and false after both loops; R07.6 the loop has no other blocking operation.",
+			"R03.4 every successful Send is followed by Flush on the same client before the next subscriber; R03.5 every accepted message reaches the fan-out before the next select; R03.6 Publish's hand-off/return sources; R03.7 topicsIntersect is true only under an equality of an element of each argument and false after both loops; R07.6 the loop has no other blocking operation; R17.1 a failing subscriber does not end the fan-out for the subscribers after it.",
 		NotDecided: "ordering/linearisation over all interleavings as a theorem (follows from the confinement and capacity rules by argument); 'delivered before cancellation was requested' timing.",
 	})
 	prop(&PropertySpec{
